@@ -1,4 +1,5 @@
 import BlackIt.Model.Loss
+import BlackIt.Model.Gsl
 import Mathlib.Algebra.Order.Field.Basic
 import Mathlib.Algebra.BigOperators.Group.List.Basic
 import Mathlib.Algebra.Order.BigOperators.Group.List
@@ -273,7 +274,64 @@ theorem msmIdentity_zero_at_real (moments : List α → List α) (real : List α
   obtain ⟨r, _, rfl⟩ := mem_zipWith_self _ _ _ hg
   simp
 
+/-! ## the Fourier loss (any frequency filter, any transform) -/
+
+/-- **Fourier** is unchanged by reordering ensemble members -/
+theorem fourier_ensemble_perm (sqrt : α → α) (spec : List α → List α) (bins : Nat) (members members' : List (List α))
+    (real : List α) (h : members.Perm members') :
+    fourierLoss (Nat.cast : Nat → α) 0 sqrt spec bins members real =
+    fourierLoss (Nat.cast : Nat → α) 0 sqrt spec bins members' real := by
+  unfold fourierLoss fourierSq; rw [(msm_ensemble_perm spec members members' real h).1]
+
+/-- the quantity under the square root is non-negative, so the loss is (for any `sqrt` that maps non-negative
+numbers to non-negative numbers) -/
+theorem fourier_nonneg (sqrt : α → α) (hs : ∀ x, 0 ≤ x → 0 ≤ sqrt x) (spec : List α → List α) (bins : Nat)
+    (members : List (List α)) (real : List α) :
+    0 ≤ fourierSq (Nat.cast : Nat → α) 0 spec bins members real ∧
+    0 ≤ fourierLoss (Nat.cast : Nat → α) 0 sqrt spec bins members real := by
+  have h : 0 ≤ fourierSq (Nat.cast : Nat → α) 0 spec bins members real := by
+    unfold fourierSq; exact div_nonneg (msmIdentity_nonneg spec members real) (Nat.cast_nonneg bins)
+  exact ⟨h, hs _ h⟩
+
+/-- the Fourier loss is zero when every simulated member equals the real data -/
+theorem fourier_zero_at_real (sqrt : α → α) (hs : sqrt 0 = 0) (spec : List α → List α) (bins : Nat)
+    (real : List α) (n : Nat) (hn : 0 < n) :
+    fourierLoss (Nat.cast : Nat → α) 0 sqrt spec bins (List.replicate n real) real = 0 := by
+  unfold fourierLoss fourierSq; rw [msmIdentity_zero_at_real spec real n hn, zero_div, hs]
+
+/-! ## GSL-div and the kernel likelihood: reordering ensemble members (and time steps) -/
+
+/-- **GSL-div** (on the discretised series) is unchanged by reordering ensemble members -/
+theorem gsl_ensemble_perm (log : α → α) (pow : α → Nat → α) (sims sims' : List (List Nat)) (obs : List Nat)
+    (L nbValues tsLength : Nat) (h : sims.Perm sims') :
+    BlackIt.Gsl.divEnsemble (Nat.cast : Nat → α) 0 log pow sims obs L nbValues tsLength =
+    BlackIt.Gsl.divEnsemble (Nat.cast : Nat → α) 0 log pow sims' obs L nbValues tsLength := by
+  unfold BlackIt.Gsl.divEnsemble
+  rw [foldl_add_eq, foldl_add_eq, (h.map _).sum_eq, h.length_eq]
+
+/-- the **kernel likelihood** is unchanged by reordering ensemble members -/
+theorem likelihood_ensemble_perm (kern log : α → α) (dims : Nat) (sim sim' : List (List (List α))) (real : List (List α))
+    (h : sim.Perm sim') :
+    likelihood (Nat.cast : Nat → α) 0 kern log dims sim real = likelihood (Nat.cast : Nat → α) 0 kern log dims sim' real := by
+  unfold likelihood
+  rw [foldl_add_eq, foldl_add_eq, (h.map _).sum_eq, h.length_eq]
+
+/-- … and by reordering the time steps of a simulated member (a kernel density estimate does not look at the
+order of its sample) and of the real series -/
+theorem likelihood_time_perm (kern log : α → α) (dims : Nat) (real real' : List (List α)) (m m' : List (List α))
+    (hm : m.Perm m') (hr : real.Perm real') :
+    logLikMember (Nat.cast : Nat → α) 0 kern log dims real m = logLikMember (Nat.cast : Nat → α) 0 kern log dims real' m' := by
+  unfold logLikMember
+  rw [foldl_add_eq, foldl_add_eq]
+  have : (fun y => log (((m.map (fun x => kern (sqDist (Nat.cast : Nat → α) 0 dims x y))).foldl (· + ·) 0) / (m.length : α))) =
+      (fun y => log (((m'.map (fun x => kern (sqDist (Nat.cast : Nat → α) 0 dims x y))).foldl (· + ·) 0) / (m'.length : α))) := by
+    funext y
+    rw [foldl_add_eq, foldl_add_eq, (hm.map _).sum_eq, hm.length_eq]
+  rw [this, (hr.map _).sum_eq]
+
 /-! ### non-vacuity -/
+example : fourierSq (Nat.cast : Nat → ℚ) 0 (fun x => x.map (· * 2)) 2 [[1, 2], [3, 4]] [0, 0] = 26 := by
+  decide +kernel
 example : computeLoss (Nat.cast : Nat → ℚ) (fun m r => (m.headD []).headD 0 - r.headD 0) (some [2, 3]) none
     [[[5]], [[7]]] [[1], [1]] = .ok 26 := by
   simp [computeLoss, checkWeights, checkFilters, weightedSum, filterCoord]; norm_num
